@@ -72,6 +72,23 @@ def flags_from_conds(conds):
     return has_min, has_max, has_msg
 
 
+def param_roles(fn):
+    """(names of the bool parameters = skip flags, name of the first &str parameter = the schema text being decorated): by type, not by spelling"""
+    bools = set()
+    schema = "schema"
+    found = False
+    for p in fn.sig.get("params", []):
+        if not p.get("pat"):
+            continue
+        ty = re.sub(r"\s+", "", p.get("ty") or "")
+        if ty == "bool":
+            bools.add(p["pat"].get("name"))
+        if not found and ty in ("&str", "&String", "String"):
+            schema = p["pat"].get("name")
+            found = True
+    return bools, schema
+
+
 def check(ctx):
     P = ctx.P
     S = ctx.S
@@ -94,17 +111,18 @@ def check(ctx):
             r1.bad(V(r1.id, "<anchor>", "missing:" + fname, "anchor not found"))
             continue
         combos = set()
+        skipflags, schemavar = param_roles(fn)
         for conds, sv in ev.fn_paths(fn, None, lambda n: None):
             ctext = " & ".join(conds)
-            passthrough = sv == ("var", "schema")
-            inactive = any(c in ("skip_validation",) for c in conds) or any(c.endswith("is None") for c in conds)
+            passthrough = sv == ("var", schemavar)
+            inactive = any(c in skipflags for c in conds) or any(c.endswith("is None") for c in conds)
             if inactive:
                 if passthrough:
-                    r1.ok("%s: schema unchanged when %s" % (fname, [c for c in conds if c == "skip_validation" or c.endswith("is None")][0]))
+                    r1.ok("%s: schema unchanged when %s" % (fname, [c for c in conds if c in skipflags or c.endswith("is None")][0]))
                 else:
                     r1.bad(V(r1.id, "ZodSchemaBuilder::" + fname, "inactive-path-changes-schema:%s" % render(sv), "with %s the schema is still modified: %s" % (ctext, render(sv))))
                 continue
-            okc, chain, why = parse_chain(sv, "schema")
+            okc, chain, why = parse_chain(sv, schemavar)
             if not okc:
                 r1.bad(V(r1.id, "ZodSchemaBuilder::" + fname, "chain-shape:%s" % render(sv)[:80], "appended constraints have an unexpected form (%s): %s" % (why, render(sv))))
                 continue
@@ -141,11 +159,12 @@ def check(ctx):
     if fn is None:
         r1.bad(V(r1.id, "<anchor>", "missing:apply_string_validators", "anchor not found"))
     else:
+        skipflags, schemavar = param_roles(fn)
         for conds, sv in ev.fn_paths(fn, None, lambda n: None):
             pos = [c for c in conds if not c.startswith("not(")]
             r_ = render(sv)
-            if "skip_validation" in pos or any(c.endswith("is None") for c in conds):
-                if sv == ("var", "schema"):
+            if any(c in skipflags for c in pos) or any(c.endswith("is None") for c in conds):
+                if sv == ("var", schemavar):
                     r1.ok("apply_string_validators: unchanged when inactive")
                 else:
                     r1.bad(V(r1.id, "ZodSchemaBuilder::apply_string_validators", "inactive-path-changes-schema:%s" % r_, "inactive path modifies the schema: %s" % r_))
